@@ -27,7 +27,8 @@ def _mkfile(work, N, kind, cols=3):
     """returns (path, full data (N x cols) as float64, original CRPIX2)"""
     from AegeanTools import fits_tools
     data = (np.arange(N)[:, None] * 8.0 + np.arange(cols)[None, :]).astype(np.float32)
-    crpix2 = N // 2 + 3
+    # reference pixels of every kind: inside, zero (int-valued), negative, far outside
+    crpix2 = [N // 2 + 3, 0, -4, 1, 3 * N + 7][(N + len(kind)) % 5]
     path = os.path.join(work, f'img_{kind}_{N}.fits')
     if kind == '2d':
         write_image(path, data, make_header((N, cols), crpix=(2, crpix2)))
